@@ -59,6 +59,7 @@ def conv_mtf(which):
         check('fx-is-axis-1-frequencies', bool(np.allclose(np.broadcast_to(seen['fx'], (m, n)), np.broadcast_to(fx[None, :], (m, n)))))
         check('fy-is-axis-0-frequencies', bool(np.allclose(np.broadcast_to(seen['fy'], (m, n)), np.broadcast_to(fy[:, None], (m, n)))))
         check('fr-is-hypot', bool(np.allclose(np.broadcast_to(seen['fr'], (m, n)), np.hypot(fx[None, :], fy[:, None]))))
+        check('ft-is-arctan2(fy,fx)', bool(np.allclose(np.broadcast_to(seen['ft'], (m, n)), np.arctan2(fy[:, None], fx[None, :] * np.ones((m, 1))))))
     else:
         psf = rng.random((m, n)) + 1e-3
         dx = float(rng.uniform(0.5, 2))
